@@ -139,6 +139,13 @@ theorem replace_refines_spec (md : Nat) (m : Option CdataMap) (lower : PStr → 
     replaceCdataList md m lower lc .plain tag d = .ok (replaceSpec m lower lc tag d) :=
   replaceCdataList_plain md m lower lc tag d hnd
 
+/-- … and for every dictionary class (`HTMLAttributeDict`, `XMLAttributeDict`) when the values are strings or lists, as
+    they are when the dictionary comes from a parser. -/
+theorem replace_refines_spec_any_class (md : Nat) (m : Option CdataMap) (lower : PStr → PStr) (lc : Nat)
+    (cls : DictClass) (tag : PStr) (d : Items) (hnd : (keys d).Nodup) (hd : ∀ p ∈ d, StrOrList p.2) :
+    replaceCdataList md m lower lc cls tag d = .ok (replaceSpec m lower lc tag d) :=
+  replaceCdataList_strOrList md m lower lc cls tag d hnd hd
+
 /-- **custom_map_exact.** Under any map `m` (the default table or a custom one) the set of attributes, their order and
     every value not covered stay as they were, and a covered string value is replaced by the list of its tokens, in the
     builder's list class. -/
@@ -396,22 +403,29 @@ example : startTagLoop 0 .plain (.callable accumulate) [(ofS "a", some (ofS "1")
 
 /-! ## end to end: a start tag through html.parser with the default containers -/
 
-/-- For a builder with a non-empty multi-valued map `m`, the plain attribute dictionary and the `replace` policy, a
-    start tag `<name k1=v1 k2=v2 …>` yields a tag whose attribute `k` holds: nothing if `k` does not occur; the token list
-    of its last value if `m` covers `(name.lower(), k)`; its last value verbatim otherwise — in order of first
-    appearance. -/
-theorem parsed_start_tag (md : Nat) (lower : PStr → PStr) (m : CdataMap) (hm : m ≠ []) (lc : Nat) (name : PStr)
-    (attrs : List (PStr × Option PStr)) :
-    ∃ t, parseStartTag md lower ⟨some m, .plain, lc⟩ .replace name attrs = .ok t ∧ t.cls = .plain ∧
+/-- For a builder with a non-empty multi-valued map `m`, **any** attribute dictionary class (`attribute_dict_class`),
+    any list class and the `replace` policy, a start tag `<name k1=v1 k2=v2 …>` yields a tag whose dictionary is of that
+    class and whose attribute `k` holds: nothing if `k` does not occur; the token list of its last value if `m` covers
+    `(name.lower(), k)`; its last value verbatim otherwise — in order of first appearance. -/
+theorem parsed_start_tag (md : Nat) (lower : PStr → PStr) (m : CdataMap) (hm : m ≠ []) (cls : DictClass) (lc : Nat)
+    (name : PStr) (attrs : List (PStr × Option PStr)) :
+    ∃ t, parseStartTag md lower ⟨some m, cls, lc⟩ .replace name attrs = .ok t ∧ t.cls = cls ∧ t.listCls = lc ∧
       keys t.items = dedupAcc [] (attrs.map (·.1)) ∧
       ∀ k, dictGet t.items k = (valsOf attrs k).getLast?.map
         (fun s => if isMulti m lower name k then .list lc (splitWs s) else .str s) := by
-  obtain ⟨d, h1, h2, h3⟩ := dup_policy_replace md .plain attrs
+  obtain ⟨d, h1, h2, h3⟩ := dup_policy_replace md cls attrs
   have hnd : (keys d).Nodup := by rw [h3]; exact nodup_dedupAcc [] _ (by simp)
+  have hstr : ∀ p ∈ d, StrOrList p.2 := by
+    intro p hp
+    have := dictGet_of_mem d hnd p hp
+    rw [h2 p.1] at this
+    cases hl : (valsOf attrs p.1).getLast? with
+    | none => simp [hl] at this
+    | some s => simp [hl] at this; rw [← this]; trivial
   have htruthy : truthyMap (some m) = true := by cases m <;> simp_all [truthyMap]
-  refine ⟨⟨.plain, lc, replaceSpec (some m) lower lc name d⟩, ?_, rfl, ?_, ?_⟩
+  refine ⟨⟨cls, lc, replaceSpec (some m) lower lc name d⟩, ?_, rfl, rfl, ?_, ?_⟩
   · simp only [parseStartTag, h1, Res.bind, tagInit, htruthy, if_true]
-    rw [replaceCdataList_plain md (some m) lower lc name d hnd]
+    rw [replaceCdataList_strOrList md (some m) lower lc cls name d hnd hstr]
   · rw [(custom_map_exact m lower lc name d).1, h3]
   · intro k
     rw [(custom_map_exact m lower lc name d).2 k, h2 k]
@@ -420,20 +434,27 @@ theorem parsed_start_tag (md : Nat) (lower : PStr → PStr) (m : CdataMap) (hm :
     | some s => cases isMulti m lower name k <;> simp [splitVal]
 
 /-- … and with `multi_valued_attributes=None` every attribute holds its last value verbatim. -/
-theorem parsed_start_tag_none (md : Nat) (lower : PStr → PStr) (lc : Nat) (name : PStr)
+theorem parsed_start_tag_none (md : Nat) (lower : PStr → PStr) (cls : DictClass) (lc : Nat) (name : PStr)
     (attrs : List (PStr × Option PStr)) :
-    ∃ t, parseStartTag md lower ⟨none, .plain, lc⟩ .replace name attrs = .ok t ∧ t.cls = .plain ∧
+    ∃ t, parseStartTag md lower ⟨none, cls, lc⟩ .replace name attrs = .ok t ∧ t.cls = cls ∧
       keys t.items = dedupAcc [] (attrs.map (·.1)) ∧
       ∀ k, dictGet t.items k = (valsOf attrs k).getLast?.map .str := by
-  obtain ⟨d, h1, h2, h3⟩ := dup_policy_replace md .plain attrs
+  obtain ⟨d, h1, h2, h3⟩ := dup_policy_replace md cls attrs
   have hnd : (keys d).Nodup := by rw [h3]; exact nodup_dedupAcc [] _ (by simp)
-  refine ⟨⟨.plain, lc, d⟩, ?_, rfl, h3, h2⟩
+  have hstr : ∀ p ∈ d, StrOrList p.2 ∨ cls = .plain := by
+    intro p hp
+    have := dictGet_of_mem d hnd p hp
+    rw [h2 p.1] at this
+    cases hl : (valsOf attrs p.1).getLast? with
+    | none => simp [hl] at this
+    | some s => simp [hl] at this; rw [← this]; exact Or.inl trivial
+  refine ⟨⟨cls, lc, d⟩, ?_, rfl, h3, h2⟩
   simp only [parseStartTag, h1, Res.bind, tagInit, truthyMap, Bool.false_eq_true, if_false]
-  rw [copyInto_plain md d [] (by simpa using hnd)]
+  rw [copyInto_strOrList md cls d [] (by simpa using hnd) hstr]
   simp
 
-example : parseStartTag 0 pyLower ⟨some BS.Gen.defaultCdataListAttributes, .plain, 1⟩ .replace (ofS "a")
+example : parseStartTag 0 pyLower ⟨some BS.Gen.defaultCdataListAttributes, .html, 1⟩ .replace (ofS "a")
     [(ofS "rel", some (ofS "x")), (ofS "id", some (ofS "p q")), (ofS "rel", some (ofS " y\tz "))]
-    = .ok ⟨.plain, 1, [(ofS "rel", .list 1 [ofS "y", ofS "z"]), (ofS "id", .str (ofS "p q"))]⟩ := by decide +kernel
+    = .ok ⟨.html, 1, [(ofS "rel", .list 1 [ofS "y", ofS "z"]), (ofS "id", .str (ofS "p q"))]⟩ := by decide +kernel
 
 end BS.Props.C17
